@@ -35,14 +35,18 @@ class C10(Prop):
             "commit with a git that is not the wrapper, somebody else writes a different well-formed note for it on the remote, "
             "the author syncs: an add/add conflict in the notes ref), with network faults: a window in which "
             "every internal git call naming the remote fails for one clone (partition, then heal), and the wrapper killed "
-            "at a drawn internal call of a push or fetch. Safety after every step: every note any repository holds for a "
+            "at a drawn internal call of a push or fetch; and concurrent episodes: two or three clones run push / fetch / pull / "
+            "pull --rebase AT THE SAME TIME under the seeded controller (internal git calls and notes threads interleaved, the "
+            "schedule is part of the trace), after which every participant has to push and fetch again sequentially before "
+            "convergence is demanded of it. Safety after every step: every note any repository holds for a "
             "commit equals the note its author's clone wrote (a sync never replaces or deletes a note). Convergence: "
             "whenever every clone has successfully pushed since its last commit and then fetched (forced once at the end "
             "after faults stop, pushing only clones that have not pushed yet), the remote and every clone hold the owner's "
             "note for every commit they have. distinct = digest of the step sequence; non-trivial = notes from two clones "
             "met on the remote")
-    assumptions = ["the interleaving is at whole-command granularity (internal calls of two sync commands are not "
-                   "interleaved; within one command the notes thread is serialised by BLOCKING_MAX_THREADS=1)",
+    assumptions = ["outside the concurrent episodes steps are whole commands; inside an episode (40% of the runs, at most two per "
+                   "run) the sync commands of 2-3 clones run at the same time and the controller interleaves their internal git "
+                   "calls and those of each command's notes thread; a real git subprocess is atomic for the scheduler",
                    "notes for commits a repository does not have are allowed"]
     expected_probes = ["step.commit", "step.push", "step.fetch", "step.pull", "fault.net_down", "fault.kill", "converged.checked",
                        "first_sync_without_notes_ref", "notes_from_two_clones", "foreign_note.written", "step.concurrent",
